@@ -648,6 +648,29 @@ def unit_nextprime(ctx):
                     raise Harness("top-of-bitlen generator")
                 _next_prime_case(ctx, rep, lib, a, n, SIZE_MAX, rng.choice((0, 16, 1024)), 16, cls)
                 _next_prime_case(ctx, rep, lib, a, n, SIZE_MAX, 0, 16, cls, inplace=True)
+        # the one-word functions at the very top of the word (the candidate a + 2 wraps): every a in [2^B - 300, 2^B)
+        B = lib.B
+        st = lib.alloc(lib.priNextPrimeW_deep())
+        out = lib.alloc(lib.W)
+        for a in range((1 << B) - 300, 1 << B):
+            if not ctx.case(["priNextPrimeW-top", a], "np:word-top"):
+                continue
+            exp = M.next_prime(a) if a.bit_length() > 1 else None
+            if exp is not None and exp.bit_length() != a.bit_length():
+                exp = None
+            refill(lib, st, lib.priNextPrimeW_deep())
+            got = lib.priNextPrimeW(out, a, st)
+            val = lib.rdw(out, 1) if got else None
+            ctx.digest(val)
+            if val != exp:
+                rep("priNextPrimeW:" + ("wrong-prime" if got and exp else "reports-none" if exp else "finds-in-wrong-bitlen"),
+                    "priNextPrimeW does not return the least odd prime of [a, 2^l)", {"a": a, "expected": exp, "got": val})
+            st2 = lib.alloc(lib.priIsPrimeW_deep())
+            ip = bool(lib.priIsPrimeW(a, st2))
+            lib.free_one(st2)
+            if ip != M.is_prime(a):
+                rep("priIsPrimeW:%s" % ("accepts-composite" if ip else "rejects-prime"), "priIsPrimeW (deterministic per pri.h) gives the wrong answer",
+                    {"a": a, "got": ip})
     elif part == "random":
         for i in range(int(60 * scale)):
             bits = rng.choice((20, 33, 40, 63, 64, 65, 96, 128, 160, 192, 256, 384, 512))
@@ -1698,6 +1721,9 @@ def main(run):
     borrowed = [dict(j, cfg="asan64") for j in c06.jobs(run.tier)
                 if (j["unit"] == "c06:unit_sp_scalar" and j["params"].get("part") == "misc")
                 or (j["unit"] == "c06:unit_b2" and j["params"].get("part") == "scalar")]
+    # gf2IsValid (gf2.c is an anchor: irreducibility of the field polynomial): C05's binary-field unit
+    from . import c05_pp
+    borrowed += [dict(j, cfg="asan64") for j in c05_pp.jobs(run.tier) if j["unit"] == "c05_pp:unit_gf2"]
     js += borrowed
     run.coverage_extra["borrowed_c06_validator_jobs"] = len(borrowed)
     # longest first
@@ -1705,8 +1731,8 @@ def main(run):
     js.sort(key=lambda j: order.get(j["unit"].split(":")[1], 9))
     run.run_jobs(js)
     # of the borrowed units keep only what C12 states (validators); the rest belongs to C06
-    keep = ("ecpIs", "ec2Is", "ecpSeems", "ec2Seems", "ecHasOrderA", "asan:", "ubsan:", "assert:", "signal:")
-    c06keys = ("ecMulA", "ecAddMulA", "ecpSWU", "ecpCreateJ", "ecNeg", "ecDbl", "ecAdd", "ecSub", "ecTo", "ecFrom")
+    keep = ("ecpIs", "ec2Is", "ecpSeems", "ec2Seems", "ecHasOrderA", "gf2IsValid", "asan:", "ubsan:", "assert:", "signal:")
+    c06keys = ("ecMulA", "ecAddMulA", "ecpSWU", "ecpCreateJ", "ecNeg", "ecDbl", "ecAdd", "ecSub", "ecTo", "ecFrom", "gf2", "qr", "pp")
     for key in list(run.viol):
         if key.startswith(c06keys) and not key.startswith(keep):
             run.viol.pop(key)
